@@ -1,5 +1,5 @@
 SPECIFICATION Spec
-CONSTANTS MaxDepth = 2  MaxUpdates = 1  Mode = "nocopy_attr"  ShareSet = {FALSE}  NegIdx = FALSE  Rich = FALSE
+CONSTANTS MaxDepth = 2  MaxUpdates = 1  Mode = "nocopy_attr"  ShareSet = {FALSE}  NegIdx = FALSE  Rich = FALSE  CreateNew = FALSE
 INVARIANT TypeOK
 INVARIANT Persistent
 INVARIANT PathOnly
